@@ -90,8 +90,27 @@ func genC14(r *Rng, e *Emitter, n int) {
 			flat := r.flatOf(pts, stride)
 			e.tally("op=points")
 			var pt geom.Coord
-			e.emit("C14.points", runSx(stride, flat), guard(func() string {
-				switch which := r.Intn(5); which {
+			which := r.Intn(5)
+			// for the variadic entry point the points are views into one shared array (as
+			// MultiPoint.Point(i) hands them out), passed in any order; the input is described in
+			// the order passed
+			perm := make([]int, m)
+			for j := range perm {
+				perm[j] = j
+			}
+			inFlat := flat
+			if which == 3 {
+				for j := m - 1; j > 0; j-- {
+					q := r.Intn(j + 1)
+					perm[j], perm[q] = perm[q], perm[j]
+				}
+				inFlat = nil
+				for _, j := range perm {
+					inFlat = append(inFlat, flat[j*stride:(j+1)*stride]...)
+				}
+			}
+			e.emit("C14.points", runSx(stride, inFlat), guard(func() string {
+				switch which {
 				case 0:
 					pt = xy.MultiPointCentroid(geom.NewMultiPointFlat(l, flat))
 				case 1, 2:
@@ -120,7 +139,7 @@ func genC14(r *Rng, e *Emitter, n int) {
 				case 3:
 					ps := make([]*geom.Point, m)
 					for j := range ps {
-						ps[j] = geom.NewPointFlat(l, flat[j*stride:(j+1)*stride])
+						ps[j] = geom.NewPointFlat(l, flat[perm[j]*stride:(perm[j]+1)*stride])
 					}
 					pt = xy.PointsCentroid(ps[0], ps[1:]...)
 				default:
@@ -129,7 +148,7 @@ func genC14(r *Rng, e *Emitter, n int) {
 				return okPt(pt)
 			}))
 			if pt != nil {
-				e.watch("C14.points", runSx(stride, flat), func() string { return okPt(pt) })
+				e.watch("C14.points", runSx(stride, inFlat), func() string { return okPt(pt) })
 			}
 		case k < 4: // lines
 			nl := 1 + r.Intn(3)
